@@ -59,6 +59,7 @@ type kvRun struct {
 	seen      map[string]bool   // every real version string observed so far
 	expOf     map[int]time.Time // model version -> expiration instant written
 	stalled   bool
+	pastCount int
 	wrotePast bool // a record with an expiration in the past was just written
 }
 
@@ -107,6 +108,10 @@ func (r *kvRun) expTime(class string) *time.Time {
 		t := time.Now().Add(-time.Second)
 		if !r.redis {
 			t = r.start.Add(time.Duration(r.now-1) * r.tick)
+		}
+		r.pastCount++
+		if r.pastCount%2 == 0 {
+			t = time.Time{} // ... every other time by ages: the zero time (1 January of year 1)
 		}
 		r.wrotePast = true
 		return &t
